@@ -236,6 +236,10 @@ func (a *actor) exec(op *Op) *CallRec {
 			if !e.closed {
 				e.closed, e.closedAt = true, e.sim.Elapsed()
 			}
+			// shutdown is a barrier: no commit of this engine may still be inside the store when Close returns
+			if e.storing != nil && e.storing != a.t && e.storingEpoch == e.epoch {
+				e.violate(violation("C16", "close-during-commit", "", fmt.Sprintf("Engine.Close returned while %s is still inside Store with a commit", e.storing.Name)))
+			}
 			// after Close returned no background goroutine of the engine may be left
 			// (checked after the next quiescence point, so that an exiting goroutine is gone)
 			simrt.Yield("op:closed")
